@@ -35,14 +35,16 @@ def next (s : State) : Label → Option State
 any interleaving. -/
 inductive Reachable : State → Prop where
   | init (nq ng max : Nat) : Reachable (initState nq ng max)
+  | initP (ps : List Bool) (ng max : Nat) : Reachable (initStateP ps ng max)
   | step {s s' : State} (l : Label) : Reachable s → next s l = some s' → Reachable s'
 
 /-- Lift a one-step invariant to all reachable states. -/
-theorem Reachable.induction {P : State → Prop} (h0 : ∀ nq ng max, P (initState nq ng max))
+theorem Reachable.induction {P : State → Prop} (h0 : ∀ nq ng max, P (initState nq ng max)) (h0P : ∀ ps ng max, P (initStateP ps ng max))
     (hs : ∀ s l s', P s → next s l = some s' → P s') : ∀ s, Reachable s → P s := by
   intro s hr
   induction hr with
   | init nq ng max => exact h0 nq ng max
+  | initP ps ng max => exact h0P ps ng max
   | step l _ h ih => exact hs _ l _ ih h
 
 end Desync
